@@ -337,6 +337,58 @@ func c12Grid(c *fw.Ctx, idx int) {
 }
 
 // (iii) moderate-magnitude floats within a few ulps of those configurations: classification only
+// (iii') float T-junctions: an endpoint of one segment computed on the other
+// segment in floating point and then moved by -2..2 ulps in x and y (all 25
+// neighbours), so the endpoint is exactly on, barely left of and barely right
+// of the other segment: the classification none / point must follow the exact
+// sign, which the floating-point filter of the orientation test cannot see
+func c12FloatT(c *fw.Ctx, idx int) {
+	r := c.R
+	fl := func() float64 {
+		switch r.Intn(3) {
+		case 0:
+			return gen.Float(r, gen.LonLat)
+		case 1:
+			return float64(r.Range(-1000, 1000)) / 7
+		}
+		return gen.Float(r, gen.Moderate)
+	}
+	s2 := seg{[2]float64{fl(), fl()}, [2]float64{fl(), fl()}}
+	a := [2]float64{fl(), fl()}
+	t := r.Float01()
+	if r.Chance(1, 5) {
+		t = float64(r.Range(0, 8)) / 8
+	}
+	px := s2.a[0] + t*(s2.b[0]-s2.a[0])
+	py := s2.a[1] + t*(s2.b[1]-s2.a[1])
+	for _, v := range []float64{s2.a[0], s2.a[1], s2.b[0], s2.b[1], a[0], a[1], px, py} {
+		if math.IsNaN(v) || math.IsInf(v, 0) || math.Abs(v) > 1e9 {
+			c.Count("skipped_degenerate")
+			return
+		}
+	}
+	if s2.a == s2.b {
+		c.Count("skipped_degenerate")
+		return
+	}
+	c.Count("float_t_junction_bases")
+	for dx := -2; dx <= 2; dx++ {
+		for dy := -2; dy <= 2; dy++ {
+			p := [2]float64{gen.NextAfterN(px, dx), gen.NextAfterN(py, dy)}
+			if p == a {
+				continue
+			}
+			s1 := seg{a, p}
+			if r.Bool() {
+				s1 = seg{p, a}
+			}
+			c.Count("float_pairs")
+			c12CheckPair(c, s1, s2, false, false)
+		}
+	}
+	c.Distinct(fmt.Sprintf("floatT/%v/%v", s2, a))
+}
+
 func c12Float(c *fw.Ctx, idx int) {
 	r := c.R
 	s1, s2 := c12Construct(r, 32)
@@ -386,6 +438,7 @@ func init() {
 			{Name: "exhaustive-4x4", Quick: 65536, Thorough: 65536, Run: c12Exhaustive, Exhaustive: "every ordered pair of non-degenerate segments with endpoints on a 4x4 grid (57,600 pairs) x 8 presentations"},
 			{Name: "grid", Quick: 40000, Thorough: 3000000, Run: c12Grid},
 			{Name: "float", Quick: 30000, Thorough: 2000000, Run: c12Float},
+			{Name: "float-t-junction", Quick: 12000, Thorough: 600000, Run: c12FloatT},
 		},
 		Require: []string{"class_proper-crossing", "class_t-junction", "class_endpoint-endpoint", "class_collinear-overlap", "class_collinear-touching", "class_collinear-disjoint", "class_parallel", "class_disjoint", "crossings_located", "float_pairs"},
 	})
